@@ -590,4 +590,138 @@ example : ∀ d', autoClaimWalk wkDoc2 wkFile2 = .ok d' → textOf d'.store = te
   have := List.all_eq_true.mp hall t ht
   simpa [hp] using this
 
+/-! ## Calls that name their comments (selections)
+
+`claim_interleaving_comments(comments)` / `unclaim_interleaving_comments(comments)` with an explicit selection - the empty
+one included - touch the ownership of those comments only. -/
+
+
+/-- `_find_outer` yields only comments of the selection. -/
+theorem findOuter_in_selection (inSet : Nat → Bool) (limit : Nat) (prev : Nat) (w : List Tk) :
+    ∀ t ∈ findOuter inSet limit prev w, inSet t.id = true := by
+  induction w generalizing prev with
+  | nil => intro t h; simp [findOuter] at h
+  | cons x xs ih =>
+    intro t h
+    unfold findOuter at h
+    split at h
+    · simp at h
+    · split at h
+      · exact ih _ t h
+      · split at h
+        · split at h
+          · simp at h
+          · rcases List.mem_append.mp h with h1 | h2
+            · split at h1
+              · simp at h1; subst h1; assumption
+              · simp at h1
+            · exact ih _ t h2
+        · simp at h
+
+/-- The comments a gap contributes are comments of the selection. -/
+theorem gapComments_in_selection (inSet : Nat → Bool) (gap : List Tk) :
+    ∀ t ∈ gapComments inSet gap, inSet t.id = true := by
+  intro t h
+  simp [gapComments] at h
+  exact h.2.1.2
+
+/-- **Selective release.** `unclaim_interleaving_comments(comments)` releases comments of the selection only … -/
+theorem unclaim_within_selection {items : List Item} {l : List Nat} {s : Store} {o : UnclaimOut}
+    (h : unclaimInterleaving items (some l) s = .ok o) : ∀ c ∈ o.comments, c ∈ l := by
+  unfold unclaimInterleaving at h
+  simp only at h
+  split at h
+  · simp at h
+  · simp only [Except.ok.injEq] at h
+    subst h
+    intro c hc
+    simp only [List.mem_map, List.mem_filter] at hc
+    obtain ⟨it, ⟨_, hsel⟩, rfl⟩ := hc
+    simp [unSel, inSetOf] at hsel
+    exact hsel.2
+
+/-- … and the empty selection releases nothing: no flag changes, no entry leaves the field. -/
+theorem unclaim_empty_selection (items : List Item) (s : Store) :
+    unclaimInterleaving items (some []) s = .ok { store := s, items := items, comments := [] } := by
+  have hsel : ∀ it : Item, unSel (some []) it = false := by intro it; simp [unSel, inSetOf]
+  simp [unclaimInterleaving, hsel, unRemaining, setFlags]
+
+
+theorem findInner_new_in_selection (inSet : Nat → Bool) (items : List Item) :
+    ∀ (cur : List Tk) (ys : List Item) (left : List Tk), findInner inSet cur items = .ok (ys, left) →
+      ∀ y ∈ ys, y ∈ items ∨ inSet y.first = true := by
+  induction items with
+  | nil =>
+    intro cur ys left h y hy
+    simp [findInner] at h
+    rw [h.1] at hy
+    simp at hy
+  | cons it its ih =>
+    intro cur ys left h y hy
+    unfold findInner at h
+    simp only at h
+    split at h
+    · simp at h
+    · rename_i a b after hs
+      split at h
+      · simp at h
+      · rename_i ys' left' hrec
+        simp only [Except.ok.injEq, Prod.mk.injEq] at h
+        rw [← h.1] at hy
+        rcases List.mem_append.mp hy with h1 | h2
+        · right
+          simp only [List.mem_map] at h1
+          obtain ⟨t, ht, rfl⟩ := h1
+          exact gapComments_in_selection inSet _ t ht
+        · rcases List.mem_cons.mp h2 with rfl | h3
+          · left; exact List.mem_cons_self
+          · rcases ih _ _ _ hrec y h3 with h4 | h4
+            · left; exact List.mem_cons_of_mem _ h4
+            · right; exact h4
+
+/-- **Selective claim.** Every entry of the field after `claim_interleaving_comments(comments)` is an entry it had
+before or a comment of the selection: with the empty selection nothing is claimed. -/
+theorem claim_within_selection {ph mf ml : Nat} {items : List Item} {l : List Nat} {s : Store} {o : InterOut}
+    (h : claimInterleaving ph items mf ml (some l) s = .ok o) :
+    ∀ it ∈ o.items, it ∈ items ∨ it.first ∈ l := by
+  unfold claimInterleaving at h
+  split at h
+  · simp at h
+  · rename_i sc hsc
+    split at h
+    · simp at h
+    · split at h
+      · simp at h
+      · split at h
+        · simp at h
+        · simp only [Except.ok.injEq] at h
+          subst h
+          simp only
+          unfold scanComments at hsc
+          split at hsc
+          · simp at hsc
+          · rename_i pre x post hsp
+            split at hsc
+            · simp at hsc
+            · rename_i inner left hin
+              simp only [Except.ok.injEq] at hsc
+              subst hsc
+              intro it hit
+              have key : ∀ i, inSetOf (some l) i = true → i ∈ l := by
+                intro i hi; simpa [inSetOf] using hi
+              simp only [List.mem_append, List.mem_map] at hit
+              rcases hit with (⟨t, ht, rfl⟩ | h2) | ⟨t, ht, rfl⟩
+              · right
+                exact key _ (findOuter_in_selection _ _ _ _ t (by simpa using ht))
+              · rcases findInner_new_in_selection _ _ _ _ _ hin it h2 with h3 | h3
+                · left; exact h3
+                · right; exact key _ h3
+              · right
+                exact key _ (findOuter_in_selection _ _ _ _ t ht)
+
+
+/-! Non-vacuity: a selective release on a field with two comment entries and a model. -/
+example : ∃ o, unclaimInterleaving [⟨5, 5, true⟩, ⟨7, 9, false⟩, ⟨11, 11, true⟩] (some [11]) [] = .ok o ∧ o.comments = [11] :=
+  ⟨_, rfl, rfl⟩
+
 end Autobean.C14
